@@ -290,7 +290,8 @@ class JaxExplicitComponent(ExplicitComponent):
         """
         Update the jax function that computes the jacobian for this component if necessary.
 
-        An update is required if jitting is enabled and any static values have changed.
+        An update is required if any static values have changed and either jitting is enabled
+        or there are discrete inputs (their values are captured when the function is built).
 
         Parameters
         ----------
@@ -305,7 +306,7 @@ class JaxExplicitComponent(ExplicitComponent):
             MethodType(function, self) to an attribute of the instance.
         """
         need_jit = self.options['use_jit']
-        if need_jit and self._statics_changed(discrete_inputs):
+        if (need_jit or discrete_inputs) and self._statics_changed(discrete_inputs):
             self._jac_func_ = None
 
         if self._jac_func_ is None:
